@@ -670,6 +670,11 @@ func c04mutate(rng *core.Rng, msgs [][]byte) ([][]byte, string) {
 	m := out[i]
 	vals := []uint32{0, 1, 3, 4, 5, 0x7fffffff, 0x80000000, 0xffffffff, 0xfffffffe, c04L + 4, c04L + 5, 65535, 65536, 0x00ffffff, 0x0bebc200, 0x3fffffff}
 	hostile := func() []byte {
+		if rng.Intn(3) == 0 {
+			// text a lexer trips over: quotes, comments and dollar quotes that never close, markers at the
+			// very end, escapes before the end
+			return []byte(core.Pick(rng, []string{"SELECT '", "'", "\"", "SELECT \"col", "x = 'it''s", "/*", "/* /* */", "--", "$$", "$tag$ body", "$", "$1 '", "? \"", "E'\\", "'\\'", "SELECT $1 /*", "a -- ' \n '", "''''", "$9999999999999999999999 '", "U&'\\", "?'", "$1\"", "';", "\";"}))
+		}
 		// bytes no text is made of: continuation bytes without a lead byte, lead bytes without continuation,
 		// overlong and surrogate encodings - in lengths around what a log line or a fixed buffer may hold
 		pat := core.Pick(rng, [][]byte{{0x80}, {0xbf}, {0xaa}, {0xc0}, {0xff}, {0xe2, 0x82}, {0xf4, 0x90}, {0xed, 0xa0, 0x80}, {0xc0, 0xaf}})
